@@ -105,6 +105,18 @@ def step (_ : Unit) (line : String) : Unit × String :=
       let m := s!"p1={p} p2={p} q1={q}"
       ((), m ++ " ||| " ++ (if impl == m then "ok" else "bad:a command was handed another process's environment (or lost its own): want " ++ m))
     | _, _, _, _ => ((), "bad-op")
+  | ["realenv", tty, g, a, kh] =>
+    match parsePairs g, parsePairs a, hexDec kh with
+    | some glob, some own, some k =>
+      if tty != "0" && tty != "1" then ((), "bad-op") else
+      -- a real command, with or without a pseudo terminal, sees its own variables over the global
+      -- ones, the injected pair for its replica, and runs in the configured working directory
+      let v := match envLookup (processEnv "p" 0 [] glob own) k with
+        | some v => hexEncE v
+        | none => "unset"
+      let m := s!"k={v} n=p r=0 dir=ok"
+      ((), m ++ " ||| " ++ (if impl == m then "ok" else "bad:the command was launched without its environment / working directory: want " ++ m))
+    | _, _, _ => ((), "bad-op")
   | ["procenv", nh, rep, a, b, c, kh] =>
     match hexDec nh, rep.toNat?, parsePairs a, parsePairs b, parsePairs c, hexDec kh with
     | some name, some r, some inh, some glob, some own, some k =>
